@@ -51,10 +51,13 @@ type pstate struct {
 	copies  []copyRec
 	finder  map[string]finderProv
 	stack   []*types.Func
+	created int // nodes allocated on this path
+	attach  int // new nodes stored into a link on this path
+	changes int // stores into the tree (links, root, values) and calls of the splicing contract
 }
 
 func (s *pstate) clone() *pstate {
-	n := &pstate{val: map[types.Object]string{}, atoms: map[string]bool{}, spliced: map[string]bool{}, finder: map[string]finderProv{}, stale: s.stale}
+	n := &pstate{val: map[types.Object]string{}, atoms: map[string]bool{}, spliced: map[string]bool{}, finder: map[string]finderProv{}, stale: s.stale, created: s.created, attach: s.attach, changes: s.changes}
 	for k, v := range s.val {
 		n.val[k] = v
 	}
@@ -74,20 +77,24 @@ func (s *pstate) clone() *pstate {
 }
 
 type pathEngine struct {
-	c         *Ctx
-	info      *types.Info
-	decls     map[*types.Func]*ast.FuncDecl
-	writers   map[*types.Func]bool
-	recursive map[*types.Func]bool
-	callers   map[*types.Func]int
-	nfresh    int
-	writes    map[token.Pos]bool
-	calls     map[token.Pos]bool
-	paths     int
-	reported  map[string]bool
-	curFn     []string
-	budget    int
-	hints     []string // names of the variables a finder's results are assigned to (for messages)
+	c              *Ctx
+	info           *types.Info
+	decls          map[*types.Func]*ast.FuncDecl
+	writers        map[*types.Func]bool
+	recursive      map[*types.Func]bool
+	callers        map[*types.Func]int
+	nfresh         int
+	writes         map[token.Pos]bool
+	calls          map[token.Pos]bool
+	paths          int
+	reported       map[string]bool
+	curFn          []string
+	budget         int
+	hints          []string // names of the variables a finder's results are assigned to (for messages)
+	rootPos        token.Pos
+	rootSplices    bool // the root being interpreted is the recursive unlinking function
+	attachedAtRoot bool // some path of the root being interpreted stores a new node into the tree's root
+	sawCreate      bool
 }
 
 func (pe *pathEngine) fresh(prefix string) string {
@@ -500,6 +507,8 @@ func (pe *pathEngine) eval(st *pstate, e ast.Expr, k func(st *pstate, v string))
 	case *ast.UnaryExpr:
 		if x.Op == token.AND {
 			if _, isLit := x.X.(*ast.CompositeLit); isLit && isNodePtr(pe.info.TypeOf(x)) {
+				st.created++
+				pe.sawCreate = true
 				k(st, pe.fresh("new"))
 				return
 			}
@@ -586,6 +595,7 @@ func (pe *pathEngine) call(st *pstate, call *ast.CallExpr, k func(st *pstate, re
 	if pe.writers[fn] && (pe.recursive[fn] || onStack) {
 		// contract call
 		pe.calls[call.Pos()] = true
+		st.changes++
 		ct := pe.contract(fd)
 		if ct == nil || len(call.Args) != 2 {
 			pe.violate(pe.site(), "call "+fn.Name(), call.Pos(), "a recursive function that changes the tree does not have the (node, parent) form whose precondition can be stated (undecided, fails closed)")
@@ -840,8 +850,13 @@ func (pe *pathEngine) linkStore(st *pstate, place, val, text string, pos token.P
 		return
 	}
 	defer func() { st.stale = pos }()
+	st.changes++
 	switch {
 	case strings.HasPrefix(val, "new"):
+		st.attach++
+		if strings.HasPrefix(place, "b.") && strings.Count(place, ".") == 1 {
+			pe.attachedAtRoot = true
+		}
 		ok, bad := pe.mustHold(st, symEq(place, "nil"))
 		c.Run.Oblige(ok)
 		if !ok {
@@ -930,12 +945,26 @@ func (pe *pathEngine) valueStore(st *pstate, n string, rhs ast.Expr, pos token.P
 	if bad != "" {
 		pe.violate(site, detail+" start", pos, prov.start+" can be nil where the neighbour search starts (e.g. when "+short(bad, 120)+")")
 	}
+	st.changes++
 	st.copies = append(st.copies, copyRec{src: m, pos: pos, fn: site})
 }
 
 // endOfPath: every value that was copied up belongs to a node that was unlinked.
 func (pe *pathEngine) endOfPath(st *pstate) {
 	pe.paths++
+	// a node that was allocated is attached exactly once before the function returns (Insert), and
+	// a function that exists to unlink a node (the recursive splicer) changes the tree on every path
+	if st.created > 0 {
+		ok := st.attach == st.created
+		pe.c.Run.Oblige(ok)
+		if !ok {
+			pe.violate(pe.site(), "attach count", pe.rootPos, fmt.Sprintf("a path allocates %d node(s) and stores %d of them into the tree: an inserted value is lost (or stored twice)", st.created, st.attach))
+		}
+	}
+	if pe.rootSplices && st.changes == 0 {
+		pe.c.Run.Oblige(false)
+		pe.violate(pe.site(), "no change", pe.rootPos, "a path of the unlinking function returns without changing a link, the root or a value: the node to be removed stays in the tree")
+	}
 	for _, cp := range st.copies {
 		ok := st.spliced[cp.src]
 		pe.c.Run.Oblige(ok)
@@ -1059,7 +1088,16 @@ func (c *Ctx) bstLinks() {
 			}
 		}
 		pe.curFn = []string{fd.Name.Name}
+		pe.rootPos, pe.rootSplices = fd.Pos(), pe.recursive[fn] && pe.contract(fd) != nil
+		pe.attachedAtRoot, pe.sawCreate = false, false
 		pe.exec(st, fd.Body.List, conts{ret: func(s *pstate, _ []string) { pe.endOfPath(s) }}, func(s *pstate) { pe.endOfPath(s) })
+		if pe.sawCreate {
+			// the first value of an empty tree becomes its root
+			run.Oblige(pe.attachedAtRoot)
+			if !pe.attachedAtRoot {
+				pe.violate(fd.Name.Name, "empty tree", fd.Pos(), "no path of "+fd.Name.Name+" stores the new node as the root: inserting into an empty tree walks from a nil root")
+			}
+		}
 	}
 	run.Count("bst_link_writes", len(pe.writes))
 	run.Floor("bst_link_writes", 4)
